@@ -101,12 +101,20 @@ def genNonces (rand pk : Bytes) (sk aggpk : Bytes) (msg : Option Bytes) (aux : B
   some (toBE 32 k1 ++ toBE 32 k2 ++ pk,
         serializeCompressed (mulG k1) ++ serializeCompressed (mulG k2))
 
-/-- `btcec.ParseJacobian`: 33 bytes; a first byte 0x00 means infinity (the other 32 bytes are ignored). -/
+/-- `btcec.ParseJacobian` = BIP327 cpoint_ext: 33 bytes; the all-zero string is the point at infinity, any
+    other string starting with 0x00 is invalid (repaired in /repo by the F-C11-b fix). -/
 def parseNoncePoint (b : Bytes) : Option Point :=
   if b.length ≠ 33 then none else
   match b with
-  | 0 :: _ => some .inf
+  | 0 :: rest => if rest.all (· == 0) then some .inf else none
   | _ => parsePubKey b
+
+/-- musig2 `parsePubNonce` = BIP327 cpoint: one half of an individual signer's public nonce must be a finite
+    curve point. -/
+def parsePubNonce (b : Bytes) : Option Point :=
+  match b with
+  | 0 :: _ => none
+  | _ => parseNoncePoint b
 
 /-- `btcec.JacobianToByteSlice` -/
 def noncePointBytes : Point → Bytes
@@ -122,8 +130,8 @@ def sumPoints : List (Option Point) → Option Point
 
 /-- `AggregateNonces` (each entry 66 bytes) -/
 def aggregateNonces (ns : List Bytes) : Option Bytes :=
-  match sumPoints (ns.map (fun b => parseNoncePoint (b.take 33))),
-        sumPoints (ns.map (fun b => parseNoncePoint (b.drop 33))) with
+  match sumPoints (ns.map (fun b => parsePubNonce (b.take 33))),
+        sumPoints (ns.map (fun b => parsePubNonce (b.drop 33))) with
   | some r1, some r2 => some (noncePointBytes r1 ++ noncePointBytes r2)
   | _, _ => none
 
@@ -153,7 +161,7 @@ def verifyPartialWith (ak : AggKey) (s : Nat) (pubNonce aggNonce : Bytes) (keys 
   let keys' := if sort then sortKeys keys else keys
   let kh := keyHashFingerprint keys sort
   let sk := secondKey keys'
-  match signingNonce aggNonce ak.final msg, parseNoncePoint (pubNonce.take 33), parseNoncePoint (pubNonce.drop 33) with
+  match signingNonce aggNonce ak.final msg, parsePubNonce (pubNonce.take 33), parsePubNonce (pubNonce.drop 33) with
   | some (r, b), some pn1, some pn2 =>
     let re := add pn1 (mul b pn2)
     let re := if hasEvenY r then re else neg re
